@@ -299,7 +299,7 @@ def table():
             sub.env.set(g.target.id, gi)
             return ("for-each-container-index", interp.eval(cx, sub, e.elt))
         if src == "self.__files__":
-            sub.env.set(g.target.id, item(at(s, "__files__"), gi))
+            sub.env.set(g.target.id, item(at(s, "__files__"), "generic-index"))
             return ("for-each-container", interp.eval(cx, sub, e.elt))
         return NotImplemented
 
@@ -313,7 +313,7 @@ def table():
 
     def files_pred(cx, a, res):
         ok = isinstance(res, tuple) and res[0] == "for-each-container" and isinstance(res[1], Tr)
-        return z3.BoolVal(bool(ok and same(res[1], call(Tr(("global", "Path")), at(item(at(s, "__files__"), z3.Int("generic_container_index")), "filename")))))
+        return z3.BoolVal(bool(ok and same(res[1], call(Tr(("global", "Path")), at(item(at(s, "__files__"), "generic-index"), "filename")))))
 
     class ByIndex(One):
         def init(self):
